@@ -382,17 +382,34 @@ ASTNode *ExpressionParser::parseBitwiseAnd() {
  * - ==, != (等価比較)
  * - <, >, <=, >= (大小比較)
  */
-ASTNode *ExpressionParser::parseComparison() {
+ASTNode *ExpressionParser::parseRelational() {
     ASTNode *left = parseShift();
 
-    while (parser_->check(TokenType::TOK_EQ) ||
-           parser_->check(TokenType::TOK_NE) ||
-           parser_->check(TokenType::TOK_LT) ||
+    while (parser_->check(TokenType::TOK_LT) ||
            parser_->check(TokenType::TOK_LE) ||
            parser_->check(TokenType::TOK_GT) ||
            parser_->check(TokenType::TOK_GE)) {
         Token op = parser_->advance();
         ASTNode *right = parseShift();
+
+        ASTNode *binary = new ASTNode(ASTNodeType::AST_BINARY_OP);
+        binary->op = op.value;
+        binary->left = std::unique_ptr<ASTNode>(left);
+        binary->right = std::unique_ptr<ASTNode>(right);
+
+        left = binary;
+    }
+
+    return left;
+}
+
+ASTNode *ExpressionParser::parseComparison() {
+    ASTNode *left = parseRelational();
+
+    while (parser_->check(TokenType::TOK_EQ) ||
+           parser_->check(TokenType::TOK_NE)) {
+        Token op = parser_->advance();
+        ASTNode *right = parseRelational();
 
         ASTNode *binary = new ASTNode(ASTNodeType::AST_BINARY_OP);
         binary->op = op.value;
